@@ -724,6 +724,28 @@ func bkliEvent(r *Run, g *gen.G, inputs []tv.T, kf string) []byte {
 		mig = append(mig, m)
 	}
 	ev["migrate"] = mig
+	// the migrated layers evaluated in ONE run: every layer patches its own copy of the common base only
+	allOK := len(mig) > 0
+	args := []string{"bkl", "-f", "json"}
+	for i, m := range mig {
+		if m.(map[string]any)["ok"] != true {
+			allOK = false
+		}
+		args = append(args, fmt.Sprintf("common.m%d.yaml", i))
+	}
+	if allOK {
+		ra := tool(d, args...)
+		tg := map[string]any{"ok": false, "outs": []any{}}
+		if ra.Exit == 0 {
+			if outs, err := fsx.DecodeJSONStream(ra.Stdout); err == nil {
+				tg["ok"] = true
+				tg["outs"] = outs
+			}
+		} else {
+			tg["stderr"] = trunc(string(ra.Stderr), 200)
+		}
+		ev["together"] = tg
+	}
 	return J(ev)
 }
 
